@@ -66,8 +66,12 @@ class ModelR:
     def call(self, name, *args):
         return self.ufn(name, len(args))(*args)
 
-    def isnan(self, a): return z3.BoolVal(False)
-    def isinf(self, a): return z3.BoolVal(False)
+    def isnan(self, a):
+        # model R has no NaN arithmetic; "is missing" is an uninterpreted predicate on the cell value
+        return z3.Function("isnan", self.sort, z3.BoolSort())(a)
+
+    def isinf(self, a):
+        return z3.Function("isinf", self.sort, z3.BoolSort())(a)
     nan_possible = False
 
 
